@@ -41,9 +41,29 @@ MANIFEST = {
 }
 
 
-def tree(root, drop=("Veryl.lock",)):
-    t = G.tree_snapshot(root)
+def tree(sb, root, roots, drop=("Veryl.lock",)):
+    """content hashes with the project root paths (absolute filelists) normalised, so that the
+    project and its copy compare equal"""
+    t = sb.norm_tree(root, roots)
     return {k: v for k, v in t.items() if k not in drop}
+
+
+def check_then_write(sb, base, check_args, write_args):
+    """Run the check-mode command, put the project back exactly as it was (check mode may touch
+    .build), run the write-mode command IN THE SAME PLACE (absolute paths in filelists and in the
+    incremental cache stay valid).  Returns (check result, write result, tree before, tree after
+    check, tree after write)."""
+    roots = (sb.root,)
+    backup = os.path.join(base, "backup")
+    shutil.copytree(sb.root, backup, symlinks=True)
+    before = tree(sb, sb.root, roots)
+    rc = sb.run(check_args)
+    after_check = tree(sb, sb.root, roots)
+    shutil.rmtree(sb.root)
+    shutil.copytree(backup, sb.root, symlinks=True)
+    rw = sb.run(write_args)
+    after_write = tree(sb, sb.root, roots)
+    return rc, rw, before, after_check, after_write
 
 
 def changed(a, b):
@@ -92,18 +112,14 @@ def fmt_case(veryl, prj, muts, fmt_toml):
         for sec, kv in fmt_toml.items():
             p.toml.setdefault(sec, {}).update(kv)
         sb.materialise(p)
+        sb.run(["fmt"])                           # baseline: every source in canonical format
         rng = random.Random(len(muts))
         for path, how in muts.items():
-            txt = G.render_file(p.files[path])
+            with open(os.path.join(sb.root, path), newline="") as f:
+                txt = f.read()
             with open(os.path.join(sb.root, path), "w", newline="") as f:
                 f.write(unformat(txt, rng, how))
-        sb.run(["metadata"])                      # creates Veryl.lock so that no mode has to
-        before = tree(sb.root)
-        copy = sb.clone_tree("w", drop_build=False)
-        rc = sb.run(["fmt", "--check"])
-        after_check = tree(sb.root)
-        rw = sb.run(["fmt"], root=copy)
-        after_write = tree(copy)
+        rc, rw, before, after_check, after_write = check_then_write(sb, base, ["fmt", "--check"], ["fmt"])
         # a second --check after write mode must pass whenever write mode succeeded (idempotence
         # of the pair is C08; here only: write mode reached a state where check passes)
         return {"check_rc": rc.rc, "write_rc": rw.rc, "check_changed": changed(before, after_check),
@@ -118,7 +134,8 @@ def fmt_case(veryl, prj, muts, fmt_toml):
 # ------------------------------------------------------------------------------------------
 
 BUILD_STATES = ["clean", "never-built", "stale-source", "missing-sv", "edited-sv", "empty-sv", "garbage-map", "missing-map",
-                "edited-filelist", "missing-filelist", "touched-sv", "extra-file", "config-format", "all-missing"]
+                "edited-filelist", "missing-filelist", "touched-sv", "extra-file", "config-format", "all-missing",
+                "missing-empty-sv"]
 
 
 def apply_state(sb, prj, state, rng):
@@ -168,6 +185,11 @@ def apply_state(sb, prj, state, rng):
     if state == "config-format":
         sb.apply(prj, {"op": "toml", "section": "format", "key": "indent_width", "value": 2})
         return state
+    if state == "missing-empty-sv":
+        gone = [f for f in outs["sv"] if os.path.getsize(f) == 0]
+        for f in gone:
+            os.remove(f)
+        return "%s %s" % (state, [os.path.relpath(f, sb.root) for f in gone])
     if state == "all-missing":
         for f in outs["sv"] + outs["map"] + outs["filelist"]:
             os.remove(f)
@@ -188,12 +210,7 @@ def build_case(veryl, prj, variant, state, seed):
         else:
             sb.run(["metadata"])
         desc = apply_state(sb, p, state, rng)
-        before = tree(sb.root)
-        copy = sb.clone_tree("w", drop_build=False)
-        rc = sb.run(["build", "--check"])
-        after_check = tree(sb.root)
-        rw = sb.run(["build"], root=copy)
-        after_write = tree(copy)
+        rc, rw, before, after_check, after_write = check_then_write(sb, base, ["build", "--check"], ["build"])
         return {"desc": desc, "check_rc": rc.rc, "write_rc": rw.rc, "panic": rc.panic or rw.panic,
                 "check_changed": changed(before, after_check), "write_changed": changed(before, after_write),
                 "before": before, "after_write": after_write, "stderr": rc.stderr[-500:],
@@ -263,6 +280,11 @@ def model_verdicts(cases, name="c27"):
 
 def run(tier, seed, replay):
     res = C.Result(PID, "other", tier, seed)
+    res.coverage["explanation"] = (
+        "partial proof + correspondence: the check/write control flow of cmd_fmt.rs and cmd_build.rs is modelled over an abstract "
+        "file system (formatting/emission uninterpreted); fmt_check_iff_noop is proved in full, build --check is proved for the "
+        "directions/files where it holds and refuted by witness elsewhere (recorded findings); the model's verdict and the "
+        "property's own oracle (exit status of --check vs files changed by write mode) are evaluated on the real CLI")
     res.coverage["trusted_base"] = C.std_trusted_base([
         "model: coq/Incr/CheckModel.v transcribes the check/write branches of crates/veryl/src/cmd_fmt.rs and cmd_build.rs "
         "(emit loop, gen_filelist, check_bundle) and utils::write_file_if_changed over path -> option text",
@@ -275,7 +297,15 @@ def run(tier, seed, replay):
     if not ok:
         res.violation("cli-build", "the veryl CLI no longer builds: " + log[-300:], {"log": log[-2000:]}, no_input=True)
         return res.finish()
-    veryl = bins["veryl"]
+    bindir = C.scratch_dir("c27bin")
+    veryl = G.private_binary(bins["veryl"], bindir)
+    try:
+        return _run_with(res, veryl, tier, seed, replay, proved)
+    finally:
+        shutil.rmtree(bindir, ignore_errors=True)
+
+
+def _run_with(res, veryl, tier, seed, replay, proved):
     rng = random.Random(seed * 104729 + 27)
 
     variants = [
@@ -328,8 +358,8 @@ def run(tier, seed, replay):
     for vname, var in variants:
         for st in BUILD_STATES:
             bjobs.append((fixed, vname, var, st, len(bjobs)))
-    bjobs.append((fixed_empty, "directory-nomap", variants[1][1], "missing-sv", 1))
-    bjobs.append((fixed_empty, "directory-nomap", variants[1][1], "all-missing", 2))
+    bjobs.append((fixed_empty, "directory-nomap", variants[1][1], "missing-empty-sv", 1))
+    bjobs.append((fixed_empty, "directory", variants[0][1], "missing-empty-sv", 2))
     bjobs.append((fixed_empty, "directory-nomap", variants[1][1], "never-built", 3))
     while len(bjobs) < max(nb, len(bjobs)):
         if len(bjobs) >= nb:
@@ -338,6 +368,16 @@ def run(tier, seed, replay):
         vname, var = rng.choice(variants)
         bjobs.append((prj, vname, var, rng.choice(BUILD_STATES), rng.randrange(10**6)))
 
+    # corpus first (hand-written witnesses)
+    cdir = os.path.join(C.VERIF, "corpus", PID)
+    for fn in sorted(os.listdir(cdir)) if os.path.isdir(cdir) else []:
+        if fn.endswith(".json"):
+            rp = json.load(open(os.path.join(cdir, fn)))
+            prj = G.Project.from_json(rp["project"])
+            if rp["kind"] == "fmt":
+                fjobs.insert(0, (prj, rp["muts"], rp.get("toml", {})))
+            else:
+                bjobs.insert(0, (prj, "corpus:" + fn[:-5], rp["variant"], rp["state"], rp["case_seed"]))
     t0 = time.time()
     with ThreadPoolExecutor(max_workers=min(C.NCPU, 16)) as exe:
         frecs = list(exe.map(lambda j: fmt_case(veryl, *j), fjobs))
